@@ -53,6 +53,11 @@ pub fn deliver(bytes: &[u8], d: &Delivery) -> Result<Delivered, String> {
         Delivery::FromStr => {
             let s = std::str::from_utf8(bytes).map_err(|_| "not UTF-8".to_string())?;
             let map = rosu_map::from_str::<Beatmap>(s).map_err(|e| format!("from_str error {e}"))?;
+            // the FromStr implementation (`str::parse::<Beatmap>()`) is one more entry point for the same bytes
+            let parsed: Beatmap = s.parse().map_err(|e| format!("str::parse::<Beatmap>() error {e}"))?;
+            if parsed != map {
+                return Err(format!("str::parse::<Beatmap>() decodes differently from rosu_map::from_str: {}", crate::oracle::cmp::full_diff(&parsed, &map).unwrap_or_default()).chars().take(900).collect());
+            }
             Ok(Delivered { map, chunks: 1, boundary_inside_line: false })
         }
         Delivery::FromPath => {
@@ -185,7 +190,9 @@ pub fn run(ctx: &mut Ctx) {
     });
 
     // content that starts like a BOM but is none (EF x, EF BB x, FF x, FE x ...), delivered in tiny chunks
-    const PREFIXES: &[&[u8]] = &[&[0xEF], &[0xEF, 0xBB], &[0xEF, 0xBB, 0x41], &[0xEF, 0x41], &[0xFF], &[0xFE], &[0xFF, 0x41], &[0xFE, 0x41], &[0xFF, 0xFF], &[0xFE, 0xFE], &[0xEF, 0xBB, 0xBF, 0xEF], &[0xBB, 0xBF], &[0xEF, 0xBF], &[]];
+    const PREFIXES: &[&[u8]] = &[&[0xEF], &[0xEF, 0xBB], &[0xEF, 0xBB, 0x41], &[0xEF, 0x41], &[0xFF], &[0xFE], &[0xFF, 0x41], &[0xFE, 0x41], &[0xFF, 0xFF], &[0xFE, 0xFE], &[0xEF, 0xBB, 0xBF, 0xEF], &[0xBB, 0xBF], &[0xEF, 0xBF], &[],
+        // a BOM followed by further U+FEFF characters (only one is a BOM)
+        &[0xEF, 0xBB, 0xBF, 0xEF, 0xBB, 0xBF], &[0xEF, 0xBB, 0xBF, 0xEF, 0xBB, 0xBF, 0xEF, 0xBB, 0xBF], &[0xFF, 0xFE, 0xFF, 0xFE], &[0xFE, 0xFF, 0xFE, 0xFF]];
     let bodies: Vec<Vec<u8>> = vec![
         b"osu file format v9\n\n[General]\nMode: 2\n\n[Metadata]\nTitle: t\n".to_vec(),
         b"\n\nosu file format v7\n[Difficulty]\nCircleSize:3\n".to_vec(),
@@ -194,14 +201,23 @@ pub fn run(ctx: &mut Ctx) {
         b"x".to_vec(),
         encode_text("osu file format v12\n[Metadata]\nArtist:\u{4e0a}\n", Enc::Utf16Le)[2..].to_vec(),
     ];
-    let per = 24u64; // native chunk sizes 1..12, BufReader capacities 1..12
-    ctx.enumerate("BOM-like prefixes x small bodies x chunk sizes / capacities 1..12", PREFIXES.len() as u64 * bodies.len() as u64 * per, |i, st| {
+    let per = 25u64; // native chunk sizes 1..12, BufReader capacities 1..12, from_str / str::parse
+    ctx.enumerate("BOM-like prefixes (incl. repeated BOMs) x small bodies x {chunk sizes / capacities 1..12, from_str + str::parse}", PREFIXES.len() as u64 * bodies.len() as u64 * per, |i, st| {
         let k = (i % per) as usize;
         let body = &bodies[((i / per) % bodies.len() as u64) as usize];
         let prefix = PREFIXES[(i / per / bodies.len() as u64) as usize];
         let mut bytes = prefix.to_vec();
         bytes.extend_from_slice(body);
-        let d = if k < 12 { Delivery::Native(Schedule::fixed(k + 1)) } else { Delivery::Buffered(k - 11, Schedule::fixed(5)) };
+        let d = if k < 12 {
+            Delivery::Native(Schedule::fixed(k + 1))
+        } else if k < 24 {
+            Delivery::Buffered(k - 11, Schedule::fixed(5))
+        } else {
+            if std::str::from_utf8(&bytes).is_err() {
+                return Ok(());
+            }
+            Delivery::FromStr
+        };
         st.eval();
         let reference = rosu_map::from_bytes::<Beatmap>(&bytes).map_err(|e| Fail::new(format!("from_bytes error {e}"), "osu", bytes.clone()))?;
         match check_one(&bytes, &reference, &d) {
